@@ -8,30 +8,49 @@ import framework as F
 import c01  # rendering of the C01 ring operations
 
 ID = "C13"
-GEN = ["Infra"]
+GEN = ["Infra", "Constraints"]
 LEVEL = "proof"
 TECHNIQUE = ("Coq proof over a branch-by-branch model of ShapedTensor.reconstrain / RecordTensor temporal setters built on the "
              "C01 ring model: size formula stated on the generated record-size expression, history preservation through "
              "'the observation k steps before the write position', constraint-validity invariant by induction over operation "
-             "sequences; model tied to the code by translation (size expression, _unwind_ptr) and differential correspondence")
+             "sequences; model tied to the code by translation (size expression, _unwind_ptr, and the constraint bookkeeping functions - "
+             "dimensionality / compatibility / consistency / ignore / valid / the reconstrain decision logic - each proved equal to "
+             "its translation) and differential correspondence")
 LEVEL_TEXT = ("Machine-checked proofs (Coq) that, in the model, every temporal setter (dt, duration, inclusive) leaves exactly "
               "max(ceil(duration/dt)+inclusive,1) slots (real arithmetic; stated on the translated expression), preserves the newest "
               "min(old,new) observations at the same steps-before-present positions, zero-fills older new slots, and succeeds on "
               "uninitialised storage; that a tensor reported valid satisfies every constraint, that a refused add has no effect, "
               "that removal never alters data and that validity is invariant under arbitrary reconstrain sequences.  The model is "
-              "tied to the code by re-translating the size expression on every run and by a differential correspondence check on "
-              "seeded operation sequences; an independent Python oracle evaluates the property statement on the implementation.")
-LEVEL_NOTE = ("Trusted: Coq kernel; translator for the size expression and _unwind_ptr; hand-written models C13/Shaped.v, C13/Resize.v "
-              "(incl. hand transcriptions of _constraint_dimensionality and _constraints_consistent) validated by correspondence only; "
+              "tied to the code by re-translating, on every run, the size expression and the constraint bookkeeping of ShapedTensor "
+              "(_constraint_dimensionality, _constraints_compatible, _constraints_consistent, _ignore, _ignore_or_compatible, valid, "
+              "compatible, the add/edit/remove decision logic of reconstrain, RecordTensor.reconstrain's dimension shift; Gen/Constraints.v) "
+              "and PROVING each corresponding model function equal to the generated one (obligations gen_*_eq), and by a differential "
+              "correspondence check on seeded operation sequences; an independent Python oracle evaluates the property statement on "
+              "the implementation.")
+LEVEL_NOTE = ("Trusted: Coq kernel; the translator (size expression, _unwind_ptr, and the pattern-checked extractor for the constraint "
+              "bookkeeping with its fixed reading of the python primitives - dict as association list with unique keys, negative "
+              "indexing, max/min over keys, short-circuit or/and, the attribute's value seen as None / uninitialised / shape); "
+              "no function of the constraint bookkeeping is hand-transcribed any more (each model function is proved equal to its "
+              "translation).  Still hand-written and validated by correspondence only: the DATA side of C13/Shaped.v "
+              "(__make_compatible on flat row-major data, the value setter, the state threading of reconstrain around the generated "
+              "decision) and C13/Resize.v (constructor incl. its dict comprehension, temporal setters around the generated size "
+              "expression, alignment, value setter, deinitialize); "
               "torch slicing/cat/roll and nn.Module attribute plumbing modelled by their meaning.  Floating-point rounding of "
               "duration/dt is not covered by the real-number theorems (the binary64 reading is validated by correspondence). "
               "Known limitation (reported): with non-strict constraints a negative dim aliasing the record dimension makes the "
               "setters raise after the temporal field was stored; theorems assume no such alias.")
 TRUSTED = [
-    "hand-written models coq/C13/Shaped.v (ShapedTensor: constraint dictionary, _constraint_dimensionality and _constraints_consistent "
-    "transcribed by hand from infrastructure.py:188-203, 227-251, compatibility, __make_compatible, reconstrain, value setter) and "
-    "coq/C13/Resize.v (RecordTensor constructor, dt/duration/inclusive setters, reconstrain, value setter, deinitialize) on top of "
-    "coq/C01/Ring.v: tied to the code only by the differential correspondence of this check",
+    "translator, special module Constraints (tools/translate.py: translate_constraints): the fixed prelude of Gen/Constraints.v "
+    "(python dict[int,int] = association list with unique keys in insertion order; `c[d] = s` / `c | {d: s}` / `del c[d]` / "
+    "`d in c` / max(c) / min(c); negative sequence indexing; the attribute's value abstracted to None / uninitialised / shape; "
+    "argtest.gte('size', size, 0, int) read as 'ValueError unless size >= 0') and the exact loop / starmap / if-tree shapes it "
+    "accepts (anything else is a TranslationError).  The eight translated functions are proved equal to the model's "
+    "(obligations gen_dimensionality_eq, gen_consistent_eq, gen_compatible_eq, gen_compatible_method_eq, gen_ignore_eq, "
+    "gen_ignore_or_compatible_eq, gen_valid_eq, gen_reconstrain_eq, gen_rreconstrain_eq)",
+    "hand-written, tied to the code only by the differential correspondence of this check: the data side of coq/C13/Shaped.v "
+    "(__make_compatible / resize_dim on flat row-major data, value setter, how reconstrain applies the generated decision to the "
+    "state) and coq/C13/Resize.v (RecordTensor constructor incl. the shift of user constraints, dt/duration/inclusive setters "
+    "around the generated size expression, align-then-reconstrain, value setter, deinitialize) on top of coq/C01/Ring.v",
     "torch semantics assumed by the model: basic slicing t[..., a:, ...], torch.cat along a dim, torch.zeros, Tensor.roll, "
     "nn.Parameter.data assignment keeps the parameter object",
 ]
@@ -41,7 +60,8 @@ ASSUMES = [
     "strict constraints; see obligation setter_alias_nonstrict_refuted for what happens otherwise)",
     "value assignment (which can invalidate a non-live tensor) and range writes are outside the run-level invariant theorem",
 ]
-EXPLANATION = ("Obligations: ShapedTensor level - dimensionality/consistency/compatibility tests equal independent specifications "
+EXPLANATION = ("Obligations: tie - each model function of the constraint bookkeeping equals the function generated from the source "
+               "(gen_*_eq) and the independent specifications restated on the generated functions (gen_*_spec).  ShapedTensor level - dimensionality/consistency/compatibility tests equal independent specifications "
                "(iff), valid is sound, reconstrain branch by branch (refused calls have no effect, removal never alters data, edit "
                "resizes), validity invariant over arbitrary operation sequences, index-level specification of the data resize. "
                "RecordTensor level - every temporal setter yields the generated number of slots, keeps the newest min(old,new) "
@@ -549,6 +569,25 @@ def constraint_holds(shape, cons, strict):
     return True
 
 
+def constraints_satisfied(shape, cons, strict):
+    """the converse direction (what compatible_spec proves the test to be): every constrained dim exists and has the
+    constrained size; strict: every dim addressed from the front lies strictly before every dim addressed from the back"""
+    n = len(shape)
+    for d, s in cons:
+        if not (-n <= d < n) or shape[d] != s:
+            return False
+    if strict:
+        front = [d for d, _s in cons if d >= 0]
+        back = [n + d for d, _s in cons if d < 0]
+        if front and back and max(front) >= min(back):
+            return False
+    return True
+
+
+def shape_ignored(shape):
+    return nel(shape) == 0 and len(shape) <= 1
+
+
 # The one place where the unchanged tree does not do what the property's first clause says (reported to the lead as a
 # finding candidate, see setter_alias_nonstrict_refuted): with NON-strict constraints a negative key can address the
 # record dimension; a temporal setter then raises RuntimeError after it stored the new dt/duration, so the record keeps
@@ -563,10 +602,26 @@ def fail(step, op, kind, **kw):
 
 
 def oracle_record(case, tr):
+    strict = case["strict"]
+    # the constructor: refuses exactly bad temporal arguments (ValueError) and an initial value that is neither ignored nor
+    # compatible with the given constraints (RuntimeError)
+    v = case["value"]
+    bad_t = not case["dt"] > 0 or not case["dur"] >= 0
+    if bad_t:
+        want = 2
+    elif v is None or shape_ignored(v[2]):
+        want = 0
+    else:
+        n0 = size_float(case["dur"], case["dt"], case["incl"])
+        raw = [[d + 1 if d >= 0 else d, s_] for d, s_ in case["ucons"]] + [[0, n0]]
+        want = 0 if constraints_satisfied([n0] + list(v[2]), raw, strict) else 1
+    got = tr[0][0] if len(tr[0]) == 1 else 0
+    if got != want:
+        return fail(-1, None, "constructor_accepts_incompatible" if got == 0 else "constructor_refuses_compatible",
+                    error=got, expected=want)
     if len(tr[0]) == 1:
         return None
     prev = tr[0][1]
-    strict = case["strict"]
     for i, (op, ent) in enumerate(zip(case["ops"], tr[1:])):
         e, _out, cur = ent
         if isinstance(cur, dict):
@@ -583,6 +638,8 @@ def oracle_record(case, tr):
             shape = [len(cr[5])] + list(cr[4])
             if not constraint_holds(shape, ccons + [[0, cr[0]]], strict):
                 return fail(i, op, "valid_unsound", shape=shape, constraints=ccons, recordsz=cr[0])
+        if not cvalid and cr[2] == 2 and constraints_satisfied([len(cr[5])] + list(cr[4]), ccons + [[0, cr[0]]], strict):
+            return fail(i, op, "valid_incomplete", shape=[len(cr[5])] + list(cr[4]), constraints=ccons, recordsz=cr[0])
         ndim = (1 + len(pr[4])) if pr[2] == 2 else None
         alias0 = ndim is not None and any(d < 0 and d + ndim == 0 for d, _s in pcons)
         if k in ("dt", "dur", "incl"):
@@ -656,6 +713,13 @@ def oracle_record(case, tr):
                 else:
                     if ccons != pcons or not same_obs:
                         return fail(i, op, "refused_add_side_effect", error=e)
+                    if ph is not None and e != (2 if pvalid else 1):
+                        # documented: ValueError for a constraint the (valid) tensor does not satisfy, RuntimeError when
+                        # the tensor had been invalidated before
+                        return fail(i, op, "refused_add_exception_class", error=e, valid_before=pvalid)
+                    if pvalid and ph is not None and constraints_satisfied(
+                            [ph[0]] + list(ph[2]), pcons + [[0, pr[0]], [key, size]], strict):
+                        return fail(i, op, "compatible_add_refused", error=e)
             else:
                 if e != 0:
                     if ccons != pcons or not same_obs:
@@ -679,10 +743,16 @@ def oracle_record(case, tr):
 
 
 def oracle_shaped(case, tr):
+    strict = case["strict"]
+    init = case["init"]
+    want = 0 if init[0] != "t" or shape_ignored(init[2]) or constraints_satisfied(init[2], case["cons"], strict) else 1
+    got = tr[0][0] if len(tr[0]) == 1 else 0
+    if got != want:
+        return fail(-1, None, "constructor_accepts_incompatible" if got == 0 else "constructor_refuses_compatible",
+                    error=got, expected=want)
     if len(tr[0]) == 1:
         return None
     prev = tr[0][1]
-    strict = case["strict"]
     if prev[2] and not prev[3] and prev[1][0] == 2 and not constraint_holds(prev[1][2], prev[0], strict):
         return fail(-1, None, "valid_unsound")
     for i, (op, (e, cur)) in enumerate(zip(case["ops"], tr[1:])):
@@ -692,6 +762,10 @@ def oracle_shaped(case, tr):
         ccons, cdata, cvalid, cign = cur[0], cur[1], cur[2], cur[3]
         if cvalid and not cign and cdata[0] == 2 and not constraint_holds(cdata[2], ccons, strict):
             return fail(i, op, "valid_unsound", shape=cdata[2], constraints=ccons)
+        if not cvalid and (cdata[0] != 2 or shape_ignored(cdata[2]) or constraints_satisfied(cdata[2], ccons, strict)):
+            return fail(i, op, "valid_incomplete", data=cdata[:3], constraints=ccons)
+        if cdata[0] == 2 and bool(cign) != shape_ignored(cdata[2]):
+            return fail(i, op, "ignored_flag", data=cdata[:3])
         if op[0] == "recon":
             key, size = op[1], op[2]
             present = any(d == key for d, _s in pcons)
@@ -713,6 +787,10 @@ def oracle_shaped(case, tr):
                         return fail(i, op, "add_alters_data")
                 elif cur[:2] != prev[:2]:
                     return fail(i, op, "refused_add_side_effect", error=e)
+                elif pdata[0] == 2 and not pign and e != (2 if pvalid else 1):
+                    return fail(i, op, "refused_add_exception_class", error=e, valid_before=pvalid)
+                elif pvalid and pdata[0] == 2 and not pign and constraints_satisfied(pdata[2], pcons + [[key, size]], strict):
+                    return fail(i, op, "compatible_add_refused", error=e)
             else:
                 if e != 0:
                     if cur[:2] != prev[:2]:
